@@ -263,7 +263,10 @@ func (i *ICMPv4) NextLayerType() gopacket.LayerType {
 }
 
 func (i *ICMPv4) VerifyChecksum() (error, gopacket.ChecksumVerificationResult) {
-	bytes := append(i.Contents, i.Payload...)
+	// Contents usually has spare capacity (it is a prefix of the packet data):
+	// a plain append would write the payload over itself inside the shared
+	// packet buffer, racing with every other reader of the packet. Force a copy.
+	bytes := append(i.Contents[:len(i.Contents):len(i.Contents)], i.Payload...)
 
 	existing := i.Checksum
 	verification := gopacket.ComputeChecksum(bytes, 0)
